@@ -1010,7 +1010,7 @@ func (em *emitter) emitUnaryOp(expr *ast.UnaryOperator, reg int8, regType reflec
 
 	// +operand
 	case ast.OperatorAddition:
-		// Nothing to do.
+		em.emitExprR(operand, regType, reg)
 
 	// -operand
 	case ast.OperatorSubtraction:
